@@ -16,7 +16,8 @@ func (ip *Inode) VerifBlks() []common.Bnum { return ip.blks }
 func VerifAssumeInvLocal(ip *Inode, dataStart, max uint64, dirSlots, lnkMax uint64) {
 	k := ip.Kind
 	verifrt.Assume(k == NF3FREE || k == nfstypes.NF3REG || k == nfstypes.NF3DIR || k == nfstypes.NF3LNK)
-	verifrt.Assume(k == NF3FREE || ip.Nlink >= 1)
+	// a link is a directory entry naming the inode: at most one per inode of the table
+	verifrt.Assume(k == NF3FREE || (ip.Nlink >= 1 && ip.Nlink <= 40000))
 	verifrt.Assume(ip.Size <= MaxFileSize())
 	nblk := util.RoundUp(ip.Size, disk.BlockSize)
 	verifrt.Assume(ip.ShrinkSize >= nblk && ip.ShrinkSize <= NDIRECT+NBLKBLK+NBLKBLK*NBLKBLK)
